@@ -653,6 +653,107 @@ def r6(cx):
             cx.violation(wfn, 'no-retest', 'after a wake-up the job is not tested again', loc=wb.loc(wtt))
 
 
+# ----------------------------------------------------------------- R8
+IS_STOPPED = [re.compile(r'^yash_env::job::Process(Result|State)::is_stopped$')]
+IS_ALIVE = [re.compile(r'^yash_env::job::ProcessState::is_alive$')]
+
+
+def _termination_evidence(F, body, du, blk, need_not_stopped):
+    """Which facts about the child's state dominate `blk`: returns (not_running, not_stopped)."""
+    cs = conds(F, body, du, blk)
+    not_running = not_stopped = False
+    for c in cs:
+        org, lab = c[0], c[1]
+        if org['k'] == 'discr' and 'ProcessState' in (org.get('ty') or '') and only_label(cs, c, ('variant', 'Halted')):
+            not_running = True
+        if org['k'] == 'discr' and 'ProcessResult' in (org.get('ty') or ''):
+            labs = {l[1] for o2, l, e in cs if e == c[2]}
+            if labs and labs <= {'Exited', 'Signaled'}:
+                not_stopped = True
+        if org['k'] == 'call' and Q.callee_is(org['t'], IS_STOPPED) and lab == ('bool', False):
+            not_stopped = True
+        if org['k'] == 'call' and Q.callee_is(org['t'], IS_ALIVE) and lab == ('bool', False):
+            not_running = not_stopped = True
+    return not_running, not_stopped
+
+
+@RS.rule('C13.R8', 'K-GUARD', 'wait layers: wait_for_subshell_to_halt returns only a Halted state, wait_for_subshell_to_finish only an '
+         'exited or killed child (a stopped child is still alive: it is awaited again, never reported as finished)')
+def r8(cx):
+    F = cx.F
+    HALT = 'yash_env::Env::<S>::wait_for_subshell_to_halt'
+    FIN = 'yash_env::Env::<S>::wait_for_subshell_to_finish'
+    for fn, need_not_stopped in ((HALT, False), (FIN, True)):
+        body = F.inlined(F.main_body(fn))
+        cx.fn(body.fn)
+        du = Q.DefUse(body)
+        oks = [(b, j, s) for b, j, s in Q.find_aggregates(body, 'core::result::Result', 'Ok') if s['lhs']['l'] == 0]
+        if not oks:
+            cx.site('%s: no Ok(..) exit' % body.fn)
+            cx.violation(fn, 'no-success-exit', '%s never returns a status' % fn, loc=body.loc(body.d))
+            continue
+        inner = Q.find_calls(body, WAITERS)
+        cx.require(inner, '%s does not wait through the wait_for_subshell layers' % fn)
+        halted_by_callee = any(pp.callee(t).endswith('wait_for_subshell_to_halt') for _, t in inner) and \
+            not any(pp.callee(t).endswith('::wait_for_subshell') for _, t in inner)
+        for b, j, s in oks:
+            nr, ns = _termination_evidence(F, body, du, b, need_not_stopped)
+            nr = nr or halted_by_callee
+            cx.site('%s: Ok(..) at %s: child known not running: %s, known not stopped: %s' % (body.fn, body.loc(s), nr, ns))
+            if not nr:
+                cx.violation(fn, 'returns-running-child', 'the function can report a child that is still running (resumed) as halted: '
+                             'the caller takes its "status" and stops waiting, the child is never reaped', loc=body.loc(s))
+            if need_not_stopped and not ns:
+                cx.violation(fn, 'returns-stopped-child', 'a stopped child is reported as finished: $? of a pipeline / subshell without job '
+                             'control becomes 384+signal while the child is still alive, and nobody waits for it after it is continued '
+                             '(zombie, wrong status)', loc=body.loc(s))
+    # the command substitution does the same by hand
+    CS = 'yash_semantics::expansion::initial::command_subst::expand_common'
+    body = F.main_body(CS)
+    cx.fn(body.fn)
+    du = Q.DefUse(body)
+    w = Q.find_calls(body, WAITERS)
+    cx.require(w, 'command substitution does not wait for its subshell')
+    fin = [t for _, t in w if pp.callee(t).endswith('wait_for_subshell_to_finish')]
+    statuses = [(b, t) for b, t in Q.find_calls(body, [re.compile(r'From<yash_env::job::ProcessResult> for yash_env::semantics::ExitStatus>::from$'), re.compile(r'Into<.*>>::into$')])
+                if 'ProcessResult' in ' '.join(t.get('at', []))]
+    cx.site('%s: waits via %s; %d conversion(s) of the process result into $?' % (body.fn, sorted({pp.callee(t).split("::")[-1] for _, t in w}), len(statuses)))
+    if not fin:
+        if not statuses:
+            cx.violation(CS, 'no-status', 'the command substitution does not derive its exit status from the awaited process result', loc=body.loc(w[0][1]))
+        for b, t in statuses:
+            nr, ns = _termination_evidence(F, body, du, b, True)
+            if not ns:
+                cx.violation(CS, 'returns-stopped-child', 'the command substitution takes the status of a merely stopped subshell as final',
+                             loc=body.loc(t))
+
+
+@RS.rule('C13.R9', 'K-ORDER', 'command substitution cannot deadlock with its child: the parent closes its write end, drains the pipe to EOF, '
+         'and only then waits for the child')
+def r9(cx):
+    F = cx.F
+    CS = 'yash_semantics::expansion::initial::command_subst::expand_common'
+    body = F.main_body(CS)
+    cx.fn(body.fn)
+    du = Q.DefUse(body)
+    read = Q.find_calls(body, ['*::ReadAll::read_all_to', '*::ReadAll::read_all'])
+    wait = Q.find_calls(body, WAITERS)
+    close_w = Q.calls_with_arg_named(body, ['*::Close::close'], 'writer', du)
+    cx.require(wait, 'command substitution does not wait for its subshell')
+    cx.site('%s: close(writer) %s, read-to-EOF %s, wait %s' % (body.fn, [body.loc(t) for _, t in close_w], [body.loc(t) for _, t in read],
+                                                              [body.loc(t) for _, t in wait]))
+    if not read:
+        cx.violation(CS, 'no-read', 'the output of the command substitution is never read', loc=body.loc(wait[0][1]))
+        return
+    for b, t in Q.check_dominated(body, read, wait):
+        cx.violation(CS, 'wait-before-read', 'the shell waits for the substituted command before it has read its output to EOF: a command '
+                     'printing more than the pipe capacity blocks in write() while the shell blocks in wait() - a deadlock under every '
+                     'schedule', loc=body.loc(t))
+    for b, t in Q.check_dominated(body, close_w, read):
+        cx.violation(CS, 'read-before-close-writer', 'the shell reads to EOF while still holding the write end of the pipe: EOF never '
+                     'arrives, the shell hangs', loc=body.loc(t))
+
+
 @RS.rule('C13.R7', 'K-TAINT', 'job numbers are sparse: the number of jobs is never used as a bound or value for job indices')
 def r7(cx):
     F = cx.F
